@@ -77,6 +77,9 @@ func (h *JSONHybridHandler) Handle(ctx context.Context, r slog.Record) (err erro
 
 	bufTextHdlr.reset()
 
+	// Clone the record before modifying it, since copies of a record share
+	// state and the caller may hand the same record to other handlers.
+	r = r.Clone()
 	r.AddAttrs(h.textAttrs...)
 
 	err = bufTextHdlr.handler.Handle(ctx, r)
